@@ -1,12 +1,17 @@
 import RV.Model.Dual
 import RV.Model.Var
 import RV.Driver.Util
+import RV.Gen.C16Deriv
+import RV.Gen.C16Dispatch
 /-
   drv_c16 — line protocol driver for C16.  All numbers are IEEE doubles as 16 hex digits,
   counts are decimal.
 
     force  N G soft2 (m x y z)*N                          -> 3N   accBasicAll on Float
     forceI/var1I/ad1I  ign N G ...                          -> 3N   the same under gravity_ignore_terms = ign
+    deriv <name> inputs (pal: G m M a lambda k h ix iy p q; orb: G m M a e inc Omega omega f) -> 7  generated RV/Gen/C16Deriv function
+    palmap / orbmap (same inputs)                          -> 7    palMap / orbMap (constructors relative to the primary)
+    megno (t dY dt_done)*                                   -> Ys Yss cov var meanY meanT megno lyapunov n   after the updates
     corrsched order inv dt na a*na nb b*nb                  -> "K a ; RR ; RV ; A ; I b ; …" schedule of reb_whfast_apply_corrector
     whjac/adwhjac G eta dt soft x y z dx dy dz             -> 6/3  WHFast Jacobi term and its variation / AD
     forceS/var1S/ad1S/ad2S  N_active tptype N G ...        -> 3N   the same with N_active < N (accBasicSplit/accVar1Split)
@@ -67,6 +72,8 @@ def vcs : Nat → List String → List (VC Float) × List String
     (⟨o.toNat!, i.toNat!, s == "1", fl l⟩ :: t, r')
   | _, r => ([], r)
 
+def floatDOps : DOps Float := { sin := Float.sin, cos := Float.cos, sqrt := Float.sqrt, fabs := Float.abs }
+
 def floatOps : ROps Float :=
   { fabs := Float.abs, log := Float.log, gt := fun a b => a > b, lt := fun a b => a < b }
 
@@ -112,6 +119,33 @@ def step (toks : List String) : String :=
       | .acc => "A"
       | .interaction b => "I " ++ hx b
     " ; ".intercalate ((correctorPair order.toNat! (fl inv) (fl dt) as_ bs).map show1)
+  | "deriv" :: name :: rest =>
+    match RV.Gen.C16Deriv.byName floatDOps name (rest.map fl) with
+    | some r => hxs [r.m, r.x, r.y, r.z, r.vx, r.vy, r.vz]
+    | none => "bad-op"
+  | ["palmap", g, m, mm, a, lam, k, h, ix, iy, p, q] =>
+    let r := palMap floatDOps (fl g) (fl m) (fl mm) (fl a) (fl lam) (fl k) (fl h) (fl ix) (fl iy) (fl p) (fl q)
+    hxs [r.m, r.x, r.y, r.z, r.vx, r.vy, r.vz]
+  | ["orbmap", g, m, mm, a, e, inc, om1, om2, f] =>
+    let r := orbMap floatDOps (fl g) (fl m) (fl mm) (fl a) (fl e) (fl inc) (fl om1) (fl om2) (fl f)
+    hxs [r.m, r.x, r.y, r.z, r.vx, r.vy, r.vz]
+  | ["dispatch1", v] =>
+    match dispatch1 RV.Gen.C16Dispatch.variationTypes RV.Gen.C16Dispatch.shortcuts v with
+    | some n => n
+    | none => "ValueError"
+  | ["dispatch2", v1, v2] =>
+    match dispatch2 RV.Gen.C16Dispatch.variationTypes RV.Gen.C16Dispatch.shortcuts v1 v2 with
+    | some n => n
+    | none => "ValueError"
+  | "megno" :: rest =>
+    let rec trip : List String → List (Float × Float × Float)
+      | a :: b :: c :: r => (fl a, fl b, fl c) :: trip r
+      | _ => []
+    let z := fun (x : Float) => x == 0.0
+    let s := megnoRun z Megno.init (trip rest)
+    let last := match (trip rest).getLast? with | some u => u.1 | none => 0.0
+    hxs [s.Ys, s.Yss, s.cov, s.var, s.meanY, s.meanT, megnoOf z last s.Yss, lyapunovOf z s] ++ " " ++ toString s.n
+  | ["derivcount"] => s!"{RV.Gen.C16Deriv.functionCount} {RV.Gen.C16Deriv.statementCount}"
   | "ad1soft" :: n :: g :: s2 :: rest =>
     let n := n.toNat!
     let all := gps rest
@@ -125,6 +159,11 @@ def step (toks : List String) : String :=
     let all := gps rest
     let ps := (all.take n).zip (all.drop n)
     v3s (accVar1Split (fl g) sqrtF (tp == "1") (ps.take na.toNat!) (ps.drop na.toNat!))
+  | "var2S" :: na :: _tp :: n :: g :: rest =>
+    let n := n.toNat!
+    let all := gps rest
+    let ps := zip4 (all.take n) ((all.drop n).take n) ((all.drop (2*n)).take n) (all.drop (3*n))
+    v3s (accVar2Split (fl g) sqrtF (ps.take na.toNat!) (ps.drop na.toNat!))
   | "ad1S" :: na :: tp :: n :: g :: rest =>
     let n := n.toNat!
     let all := gps rest
